@@ -197,44 +197,86 @@ def check_canon_cycles(facts, rep):
     import re
     from symex import SymEx, show
     B = 'yui_kh::kh::internal::v2::builder::TngComplexBuilder::<R>::make_canon_cycles'
-    inner = facts.bodies.get(B + '::{closure#1}::{closure#0}')
     outer = facts.bodies.get(B)
     col = [b for k, b in facts.bodies.items() if k.endswith('LinkExt>::colored_seifert_circles')]
     oth = [b for k, b in facts.bodies.items() if k.endswith('ext::link::Color::other')]
-    if not (inner and outer and len(col) == 1 and len(oth) == 1):
+    if not (outer and len(col) == 1 and len(oth) == 1):
         rep.indet('E12.P3: make_canon_cycles / colored_seifert_circles / Color::other not found')
         return
     col, oth = col[0], oth[0]
-    for b in (inner, outer, col, oth):
+    for b in (outer, col, oth):
         rep.saw(b)
 
     def dk(t):
         return re.sub(r'&mut _\d+', 'IT', re.sub(r'\^_ref__', '^', re.sub(r'#(?:i\d+:)?\d+\.\d+', '', show(t, -1000)))).replace('&', '').replace('*', '')
-    # dots
+    # dots: the closure that turns a coloured circle into a dotted cup, wherever it is created (in make_canon_cycles or in
+    # one of its closures), applied to a symbolic circle
+    from symex import apply_closure, strip
     table = {}
-    for p in SymEx(inner).run():
-        if p.end != 'return':
+    cands = [outer] + [b for k, b in facts.bodies.items() if k.startswith(B + '::{closure')]
+    found = None
+    for cb in cands:
+        try:
+            ps = SymEx(cb, havoc_loops=True, max_paths=5000).run()
+        except Exception:
             continue
-        agree = next((e.value != 0 for e in p.branches() if dk(e.term) in ('Eq(is_a(arg2.1), arg1.^o)', 'Eq(arg1.^o, is_a(arg2.1))')), None)
-        dots = [dk(e.args[1]) for e in p.calls() if e.name.split('::')[-1] == 'add_dot' and len(e.args) == 2]
-        cups = [dk(e.args[0]) for e in p.calls() if e.name.split('::')[-1] == 'cup']
+        for p in ps:
+            for e in p.calls():
+                if e.name.split('::')[-1] == 'map' and len(e.args) == 2 and strip(e.args[1])[0] == 'closure' and 'circles' in dk(e.args[0]):
+                    qs = apply_closure(e.args[1], [('item',)]) or []
+                    if any(c.name.split('::')[-1] == 'add_dot' for q in qs for c in q.calls()):
+                        found = (cb, qs)
+            if found:
+                break
+        if found:
+            break
+    if not found:
+        rep.indet('E12.P3: the closure that dots the cups of the Seifert circles was not found')
+        return
+    where_inner = found[0].where()
+    for q in found[1]:
+        if q.end != 'return':
+            continue
+        agree = None
+        for e in q.branches():
+            m = re.match(r"(Eq|Ne)\((?:is_a\(\('item',\)\.1\), (.+)|(.+), is_a\(\('item',\)\.1\))\)$", dk(e.term))
+            if m:
+                agree = (m.group(1) == 'Eq') == (e.value != 0)
+        dots = [dk(e.args[1]) for e in q.calls() if e.name.split('::')[-1] == 'add_dot' and len(e.args) == 2]
+        cups = [dk(e.args[0]).replace("('item',)", 'ITEM') for e in q.calls() if e.name.split('::')[-1] == 'cup']
         table[agree] = (tuple(dots), tuple(cups))
     inst = 'make_canon_cycles|one dot per Seifert circle: X iff colour agrees with the orientation bit'
-    want = {True: (('Dot::X{}',), ('from(clone(arg2.0))',)), False: (('Dot::Y{}',), ('from(clone(arg2.0))',))}
+    want = {True: (('Dot::X{}',), ('from(clone(ITEM.0))',)), False: (('Dot::Y{}',), ('from(clone(ITEM.0))',))}
     if table == want:
         rep.ok('E12.P3-canon-cycles', inst, 'agree -> X, differ -> Y, on the cup of the circle')
     elif set(table) == {True, False} and all(len(v[0]) <= 2 and all(d in ('Dot::X{}', 'Dot::Y{}', 'Dot::None{}') for d in v[0]) for v in table.values()):
-        rep.violation('E12.P3-canon-cycles', inst, 'the dots placed on a Seifert circle are %s when its colour agrees with o and %s otherwise; expected exactly one X resp. one Y' % (table[True][0], table[False][0]), where=inner.where())
+        rep.violation('E12.P3-canon-cycles', inst, 'the dots placed on a Seifert circle are %s when its colour agrees with o and %s otherwise; expected exactly one X resp. one Y' % (table[True][0], table[False][0]), where=where_inner)
     else:
         rep.indet('E12.P3: dot assignment outside the recognised fragment: %s' % table)
-    # orientations
+    # orientations: the list of bits the cycles are built for, per presence of a base point
     oris = set()
-    for p in SymEx(outer, max_paths=5000).run():
+    for p in SymEx(outer, havoc_loops=True, max_paths=5000).run():
         if p.end != 'return':
             continue
-        red = next((e.value != 0 for e in p.branches() if dk(e.term) == 'is_some(arg2)'), None)
-        ws = [dk(e.term) for e in p.events if e.kind == 'write' and dk(e.term).startswith('[')]
-        oris.add((red, tuple(ws)))
+        red = None
+        for e in p.branches():
+            if dk(e.term) == 'is_some(arg2)':
+                red = e.value != 0
+            elif dk(e.term) == 'discr(arg2)':
+                red = e.value == 1
+            elif dk(e.term) == 'is_none(arg2)':
+                red = e.value == 0
+        lists = set()
+        for e in p.events:
+            texts = []
+            if e.kind == 'write':
+                texts.append(dk(e.term))
+            elif e.kind == 'call':
+                texts += [dk(a) for a in e.args]
+            for t_ in texts:
+                for m in re.finditer(r'\[([01](?:, [01])*)\]', t_):
+                    lists.add('[%s]' % m.group(1))
+        oris.add((red, tuple(sorted(lists))))
     inst = 'make_canon_cycles|orientations: [true] reduced, [true, false] unreduced'
     if oris == {(True, ('[1]',)), (False, ('[1, 0]',))}:
         rep.ok('E12.P3-canon-cycles', inst, 'alpha only / alpha and its conjugate')
